@@ -577,6 +577,34 @@ func (e *scriptEnv) execStmt(st string) string {
 			return pdList(out)
 		})
 		return "ok"
+	case "mkseqb": // v3: keep the iter.Seq2 value returned by Backward() so that it can be re-run
+		if h.v != 3 {
+			return "na"
+		}
+		fs, ok := h.s3.(sq3.FiniteSequence)
+		if !ok {
+			return "na"
+		}
+		sq := fs.Backward()
+		e.seqs = append(e.seqs, func(take int) string {
+			if take <= 0 {
+				return "-"
+			}
+			var out []PD
+			ended := true
+			for p, d := range sq {
+				out = append(out, PD{p, d})
+				if len(out) >= take {
+					ended = false
+					break
+				}
+			}
+			if ended {
+				return pdList(out) + "$"
+			}
+			return pdList(out)
+		})
+		return "ok"
 	case "str":
 		n, ok := h.num()
 		if !ok {
